@@ -2,6 +2,7 @@ import Swim.Util.Parse
 import Swim.Drv.C17
 import Swim.Drv.C10
 import Swim.Drv.Merge
+import Swim.Drv.Codec
 /-! Line-protocol driver: `<PROP> <kind> k=v ...` in, `<PROP> <id> <agree|DISAGREE> <ok|BAD:..> ...` out. -/
 open Swim.Parse
 
@@ -14,6 +15,9 @@ def dispatch (line : String) : String :=
     let body := match prop with
       | "C17" => Swim.Drv.C17.handle kind fs
       | "C10" => Swim.Drv.C10.handle kind fs
+      | "C11" => Swim.Drv.Codec.handleC11 kind fs
+      | "C12" => Swim.Drv.Codec.handleC12 kind fs
+      | "C16" => Swim.Drv.Codec.handleC16 kind fs
       | "C01" | "C02" | "C07" | "C08" | "C18" => Swim.Drv.Merge.handle prop kind fs
       | _ => "PARSE prop"
     s!"{prop} {id} {body}"
